@@ -18,9 +18,11 @@ def _classes(i, o):
         maxnodes = 0
         chain = False
         for op, ob in zip(ops, o[1:]):
-            if not isinstance(ob, list) or len(ob) != 3:
+            if not isinstance(ob, list) or len(ob) < 3:
                 continue
-            res, log, dump = ob
+            res, log, dump = ob[0], ob[1], ob[2]
+            if len(ob) > 3 and ob[3] == 1:
+                cls.append('stale-accept(K-C19 class)')
             if op[0] == 0:
                 if res == [0]:
                     errs.add('ok')
@@ -71,18 +73,38 @@ _ASSUME = ['pending pool disabled (max_pending_pool_size_percentage = 0): missin
            'which colliding / ancestor-check error variant is reported depends on HashMap order in the code: collapsed to one tag']
 
 
-def _spec(pid, tag, theorems, level='proof (partial)'):
+def _spec(pid, tag, theorems, partial=None, level='proof'):
     return dict(id=pid, cluster='Pool', crate='h-pool', tag=tag,
                 n={'quick': 500, 'thorough': 12000},
-                theorems=theorems, classify=_classes, rule=_RULE, assumptions=_ASSUME,
+                theorems=theorems, classify=_classes, rule=_RULE,
+                assumptions=_ASSUME + ([partial] if partial else []),
                 profiles=['dev'], level=level, shard=250, workers=16)
 
 
 PROPS = {
-    'C16': _spec('C16', 16, ['no_conflicts_all_histories', 'core_inv_no_conflict', 'pool_invb_no_conflict']),
-    'C17': _spec('C17', 17, []),
-    'C18': _spec('C18', 18, []),
-    'C19': _spec('C19', 19, []),
-    'C20': _spec('C20', 20, []),
-    'C21': _spec('C21', 21, []),
+    'C16': _spec('C16', 16, ['no_conflicts_all_histories', 'core_inv_step', 'core_inv_no_conflict',
+                             'pool_invb_no_conflict', 'no_conflictb_sound'],
+                 partial='theorem over all histories assumes the true gas/size totals fit u64 (saturating counters)'),
+    'C17': _spec('C17', 17, ['can_store_bounds_partial', 'remove_subtree_exact'],
+                 partial='PARTIAL PROOF: admission-level bounds and subtree-removal exactness are proved; parents-before-children, '
+                         'cascade, chain bound and diamond-freeness of every reachable graph are decided by the checker step17 '
+                         '(pool_invb + cascadeb + parents_first) on every implementation/model trace, not by an inductive proof'),
+    'C18': _spec('C18', 18, ['extraction_respects', 'gather_best_txs_respects', 'ratio_order_partial',
+                             'sorted_keys_ratio'],
+                 partial='PARTIAL PROOF: limits, price, excluded contracts, conflict-freedom and removal proved for all states; ratio '
+                         'order proved per pass assuming the executable list is sorted; sortedness and parents-first are checked '
+                         'by pool_invb / extraction_okb on every trace'),
+    'C19': _spec('C19', 19, ['insert_rejects', 'insert_rejection_is_noop', 'collision_rule',
+                             'handed_out_inputs_rejected_refuted', 'handed_out_inputs_recorded_partial',
+                             'lru_put_no_eviction_partial'],
+                 partial='PARTIAL PROOF + KNOWN FINDING K-C19-spent-lru-overflow: the handed-out-and-unsettled clause is refuted '
+                         '(handed_out_inputs_rejected_refuted); the no-overflow ingredients are proved but not assembled over histories'),
+    'C20': _spec('C20', 20, ['late_preconf_noop', 'block_included_leave', 'rollback_clears',
+                             'block_preserves_core'],
+                 partial='PARTIAL PROOF: included transactions leave, rollback clears its traces, late preconfirmation is the '
+                         'identity, core invariant preserved; eviction of the dependents of a rolled back preconfirmation is checked '
+                         'by block_okb on every trace'),
+    'C21': _spec('C21', 21, ['expiry_reports_exactly', 'removed_exactly_once'],
+                 partial='PARTIAL PROOF: exactly-once reporting proved for the removal primitive and for expiry / skipped '
+                         'transactions; for collisions, limit eviction and rollback it is decided by step21 on every trace'),
 }
